@@ -754,7 +754,8 @@ class Fxp():
                 self.n_frac = n_frac = int(np.ceil(math.log2(10**int(getcontext().prec))))
 
             # force return raw value for better precision
-            val = int(val * 2**(self.n_frac))
+            # (rounded exactly by the configured rule; int() dropped the fraction toward zero whatever the rule)
+            val = self._round(Fraction(val) * Fraction(2)**self.n_frac, method=self.config.rounding)
             raw = True
 
         else:
